@@ -386,6 +386,13 @@ func GetHTTPRequest(ctx *core.Context, r *http.Request) (map[string]interface{},
 
 	io.Copy(ioutil.Discard, r.Body)
 
+	// The body can carry (and so replace) the uri.
+	if given, ok := m["uri"].(string); !ok {
+		return nil, fmt.Errorf("need a string uri, not a %T", m["uri"])
+	} else if given == "" {
+		return nil, errors.New("no uri given")
+	}
+
 	core.Log(core.INFO, ctx, "service.GetHTTPRequest", "m", m)
 	return m, nil
 }
